@@ -39,6 +39,8 @@ KANI_LIB_C = os.path.join(KANI_HOME, "library/kani/kani_lib.c")
 CACHE = os.path.join(VERIF, ".cache")
 TMPBASE = os.path.join(os.environ.get("TMPDIR", "/tmp"), "dltverif")
 NSLOTS = 6
+EVID = os.environ.get("VERIF_EVIDENCE_DIR", os.path.join(VERIF, "evidence"))
+CASES = os.environ.get("VERIF_CASES_DIR", os.path.join(VERIF, "replay", "cases"))
 
 sys.path.insert(0, VERIF)
 import registry  # noqa: E402
@@ -93,7 +95,11 @@ class Work:
         shutil.copytree(os.path.join(VERIF, "kani"), self.h, ignore=shutil.ignore_patterns("target", "Cargo.toml.in"))
         t = open(os.path.join(VERIF, "kani", "Cargo.toml.in")).read().replace("@REPO@", self.repo)
         open(os.path.join(self.h, "Cargo.toml"), "w").write(t)
-        shutil.copy(os.path.join(self.repo, "Cargo.lock"), os.path.join(self.h, "Cargo.lock"))
+        lock = os.path.join(self.repo, "Cargo.lock")
+        if not os.path.exists(lock):  # Cargo.lock is git-ignored in dlt-core: fresh checkouts lack it
+            subprocess.run(["cargo", "generate-lockfile", "--offline"], cwd=self.repo, env=env_offline(), check=True,
+                           stdout=subprocess.DEVNULL, stderr=subprocess.DEVNULL)
+        shutil.copy(lock, os.path.join(self.h, "Cargo.lock"))
 
     def close(self):
         if not self.keep:
@@ -186,6 +192,9 @@ def run_cmd(cmd, logf, timeout, mem_gb=12, stdout_path=None):
 CBMC_BASE = [
     "--no-malloc-may-fail", "--no-undefined-shift-check", "--no-signed-overflow-check", "--nan-check",
     "--no-self-loops-to-assumptions", "--no-pointer-primitive-check", "--object-bits", "16",
+    # arrays up to 128 elements stay field-sensitive: literal control bytes written into the
+    # reference-encoder buffers (<= 96 bytes) remain constants for symbolic execution
+    "--max-field-sensitivity-array-size", "128",
 ]
 
 
@@ -336,10 +345,12 @@ def concrete_playback(work, spec):
         except subprocess.TimeoutExpired:
             return None
     txt = open(logp).read()
-    m = re.search(r"```\n(.*?)```", txt, re.S)
-    if not m:
+    tests = re.findall(r"```\n(.*?)```", txt, re.S)
+    # Kani also emits one test per satisfied cover: keep those generated for failed checks
+    bad = [t for t in tests if "`cover`" not in t.split("#[test]")[0]]
+    if not bad:
         return None
-    return m.group(1)
+    return "\n".join(bad[:3])
 
 
 def inject_and_run_playback(work, spec, test_src):
@@ -348,17 +359,32 @@ def inject_and_run_playback(work, spec, test_src):
     name = spec["name"]
     mod = name.split("::")[0]
     path = os.path.join(work.h, "src", mod + ".rs")
-    m = re.search(r"fn (kani_concrete_playback_\w+)", test_src)
-    tname = m.group(1)
+    os.makedirs(os.path.join(work.out, re.sub(r"[^A-Za-z0-9_]", "_", name)), exist_ok=True)
+    tnames = re.findall(r"fn (kani_concrete_playback_\w+)", test_src)
     src = open(path).read()
-    if tname not in src:
+    if tnames[0] not in src:
         open(path, "a").write("\n" + test_src + "\n")
     out = {}
-    for prof, extra in (("dev", []), ("release", ["--release"])):
-        cmd = ["cargo", "kani", "playback", "-Z", "concrete-playback"] + extra + ["--", tname, "--exact", "--nocapture"]
-        # playback has no --target-dir: use CARGO_TARGET_DIR
+    for prof in ("dev", "release"):
         e = env_offline()
-        e["CARGO_TARGET_DIR"] = os.path.join(work.target, "playback")
+        e["CARGO_TARGET_DIR"] = os.path.join(work.target, "playback-" + prof)
+        if prof == "dev":
+            # Kani's own playback flow (dev profile, overflow checks on: what Kani models)
+            cmd = ["cargo", "kani", "playback", "-Z", "concrete-playback", "--", "kani_concrete_playback_", "--nocapture", "--test-threads", "1"]
+        else:
+            # the same cargo-test invocation that `cargo kani playback` issues, but with the
+            # release profile and overflow checks off: what users of the crate run
+            pb = os.path.join(KANI_HOME, "playback")
+            flags = ["-Coverflow-checks=off", "-Zunstable-options", "-Ztrim-diagnostic-paths=no", "-Zhuman_readable_cgu_names",
+                     "-Zalways-encode-mir", "--cfg=kani", "-Zcrate-attr=feature(register_tool)", "-Zcrate-attr=register_tool(kanitool)",
+                     "--force-warn", "unstable_features", "--sysroot", pb, "-L", os.path.join(pb, "lib"), "--extern", "force:kani",
+                     "--extern", "noprelude,nounused:std=" + os.path.join(pb, "lib", "libstd.rlib")]
+            e["CARGO_ENCODED_RUSTFLAGS"] = "\x1f".join(flags)
+            e["RUSTC"] = os.path.join(KANI_HOME, "bin", "kani-compiler")
+            e["CARGO_TERM_PROGRESS_WHEN"] = "never"
+            cmd = [os.path.join(KANI_HOME, "toolchain", "bin", "cargo"), "test", "--release", "--target", "x86_64-unknown-linux-gnu",
+                   "-Zhost-config", "-Ztarget-applies-to-host", '--config=host.rustflags=["--cfg=kani_host"]', "--",
+                   "kani_concrete_playback_", "--nocapture", "--test-threads", "1"]
         logp = os.path.join(work.out, re.sub(r"[^A-Za-z0-9_]", "_", name), f"playback_{prof}.log")
         with open(logp, "w") as lf:
             try:
@@ -367,7 +393,7 @@ def inject_and_run_playback(work, spec, test_src):
                 out[prof] = "timeout"
                 continue
         txt = open(logp).read()
-        if re.search(r"test result: ok\. 1 passed", txt):
+        if re.search(r"test result: ok\. [1-9]\d* passed; 0 failed", txt):
             out[prof] = "passes"
         elif re.search(r"test result: FAILED|panicked at|process didn't exit successfully|SIGABRT|SIGSEGV", txt) and "error: could not compile" not in txt and "error[E" not in txt:
             out[prof] = "fails"
@@ -411,7 +437,7 @@ def match_known(known, prop, harness, failed_rec):
 # main flows
 # --------------------------------------------------------------------------
 def write_evidence(prop, tier, seed, pdef, results, extra, wall, violations):
-    os.makedirs(os.path.join(VERIF, "evidence"), exist_ok=True)
+    os.makedirs(EVID, exist_ok=True)
     n_queries = sum(r.get("n_properties", 0) + len(r.get("covers", [])) for r in results) + extra.get("smt_queries", 0)
     sat_covers = []
     for r in results:
@@ -459,7 +485,7 @@ def write_evidence(prop, tier, seed, pdef, results, extra, wall, violations):
         "violations": violations,
     }
     ev["coverage"].update(extra.get("coverage", {}))
-    with open(os.path.join(VERIF, "evidence", f"{prop}.json"), "w") as f:
+    with open(os.path.join(EVID, f"{prop}.json"), "w") as f:
         json.dump(ev, f, indent=1)
 
 
@@ -532,7 +558,8 @@ def run_property(prop, tier, jobs, only, keep, seed):
                     log(f"  {r['status']:<12} {r['harness']}  ({r.get('cbmc_s', '?')}s) {r['detail'][:200]}")
             results.sort(key=lambda r: r["harness"])
             byname = {s["name"]: s for s in specs}
-            for r in results:
+            replayed = {}  # failed-check key -> (reproduced?, case path, profiles)
+            for r in sorted(results, key=lambda r: r.get("cbmc_s") or 0):
                 if r["status"] == "PASS":
                     continue
                 if r["status"] != "FAIL":
@@ -550,14 +577,24 @@ def run_property(prop, tier, jobs, only, keep, seed):
                 if not unknown:
                     r["status"] = "KNOWN"
                     continue
-                # new violation candidate: replay natively
+                # new violation candidate: replay natively (once per distinct failing check)
+                ckey = (unknown[0]["function"], unknown[0]["description"], unknown[0]["line"])
+                if ckey in replayed:
+                    ok, cpath0, profs0 = replayed[ckey]
+                    if ok:
+                        print(f"VIOLATION property={prop} replay={cpath0}  harness={r['harness']} same_check_as_replayed reproduced_in={profs0} check={unknown[0]['description'][:120]!r}")
+                        violations += 1
+                        exit_code = max(exit_code, 1)
+                    else:
+                        exit_code = max(exit_code, 2)
+                    continue
                 spec = byname[r["harness"]]
                 log(f"  replaying counterexample of {r['harness']} natively ...")
                 test_src = concrete_playback(work, spec)
                 case = {"property": prop, "harness": r["harness"], "failed_checks": unknown, "tier": tier,
                         "playback_test": test_src, "mem_checks": spec.get("mem_checks", False), "timeout": spec.get("timeout", 600)}
-                os.makedirs(os.path.join(VERIF, "replay", "cases"), exist_ok=True)
-                cpath = os.path.join(VERIF, "replay", "cases", f"{prop}-{re.sub(r'[^A-Za-z0-9_]', '_', r['harness'])}.json")
+                os.makedirs(CASES, exist_ok=True)
+                cpath = os.path.join(CASES, f"{prop}-{re.sub(r'[^A-Za-z0-9_]', '_', r['harness'])}.json")
                 if test_src is None:
                     case["native"] = {"error": "Kani produced no concrete playback test"}
                     json.dump(case, open(cpath, "w"), indent=1)
@@ -572,7 +609,9 @@ def run_property(prop, tier, jobs, only, keep, seed):
                     print(f"VIOLATION property={prop} replay={cpath}  harness={r['harness']} reproduced_in={profs} check={unknown[0]['description'][:120]!r}")
                     violations += 1
                     exit_code = max(exit_code, 1)
+                    replayed[ckey] = (True, cpath, profs)
                 else:
+                    replayed[ckey] = (False, cpath, "")
                     log(f"  counterexample of {r['harness']} did NOT reproduce natively ({nat}); harness/stub suspect -> inconclusive")
                     exit_code = max(exit_code, 2)
         # open known findings whose witness no longer fails are reported (not an error)
